@@ -353,7 +353,7 @@ def p1_lilim_pairing(F, r):
         return
     g, st2 = arr[0]
     gfn = F.fns[g]
-    t0, t1 = c01._toks(gfn, st2["r"]["o"][0]), c01._toks(gfn, st2["r"]["o"][1])
+    t0, t1 = c01._toks_deep(gfn, st2["r"]["o"][0]), c01._toks_deep(gfn, st2["r"]["o"][1])
     if "pickup" in t0 and "delivery" not in t0 and "delivery" in t1 and "pickup" not in t1:
         r.ok("read_jobs: order", "[pickup, delivery]")
     else:
